@@ -103,6 +103,27 @@ def add_verbatim_duplicate(rng: random.Random, hist: Dict[str, Any], tables: Tup
     return None
 
 
+def add_twin_fee(rng: random.Random, hist: Dict[str, Any]) -> Optional[Dict[str, Any]]:
+    """Next to a transfer that pays a fee, a FEE-typed out-transaction of the same account at the very same instant for exactly the
+    same amount (a network fee and an exchange's withdrawal charge that happen to be equal): two taxable events, both listed
+    everywhere. Only added when the history stays valid. Returns the new row."""
+    from decimal import Decimal
+
+    from rpv.gen import dstr
+
+    transfers = [r for r in hist["rows"] if r["t"] == "INTRA" and Decimal(r["sent"]) > Decimal(r["recv"]) and r.get("spot")]
+    rng.shuffle(transfers)
+    for transfer in transfers[:3]:
+        fee = Decimal(transfer["sent"]) - Decimal(transfer["recv"])
+        n_out = sum(1 for r in hist["rows"] if r["t"] == "OUT") + 1
+        twin = {"t": "OUT", "row": max(r["row"] for r in hist["rows"]) + 1, "ts": transfer["ts"], "ex": transfer["fex"], "ho": transfer["fho"], "type": "FEE", "spot": transfer["spot"], "cout": "0", "cfee": dstr(fee), "cout_wf": None, "fout_nf": None, "ffee": None, "uid": f"{hist['asset']}-OUT-twinfee{n_out}", "notes": ""}
+        hist["rows"].append(twin)
+        if is_valid(Model(hist)):
+            return twin
+        hist["rows"].remove(twin)
+    return None
+
+
 def method_choice(rng: random.Random, country: str, hists: Dict[str, Dict[str, Any]]) -> Tuple[List[str], Optional[Dict[int, str]], Dict[int, str], str]:
     """Pick how the method is given: -m, [accounting_methods] in the config, or the country default.
     Returns (cli args, accounting_methods for the ini, effective schedule, file-name prefix word)."""
